@@ -11,7 +11,7 @@ use serde::{Deserialize, Serialize};
 use std::collections::{BTreeMap, BTreeSet, HashMap};
 
 /// id pool: small, and containing the spellings merge's fresh-id search produces
-pub const PIDS: [&str; 8] = ["x", "y", "policy0", "policy1", "policy2", "z", "", "policy3"];
+pub const PIDS: [&str; 10] = ["x", "y", "policy0", "policy1", "policy2", "a\\b", "", "policy3", "a\\\\b", "z"];
 
 #[derive(Clone, Debug, Serialize, Deserialize, PartialEq)]
 #[serde(tag = "op")]
@@ -22,7 +22,9 @@ pub enum PsOp {
     Unlink { id: u8 },
     RemoveStatic { id: u8 },
     RemoveTemplate { id: u8 },
-    Merge { sub: Vec<PsOp>, rename: bool },
+    /// `from_clone`: `other` starts as a clone of the set itself (sharing its template allocations)
+    /// and is then edited by `sub`; otherwise it starts empty
+    Merge { sub: Vec<PsOp>, rename: bool, #[serde(default)] from_clone: bool },
     /// replace the set by its own JSON (0) or protobuf (1) round trip; the contents must be unchanged
     RoundTrip { via: u8 },
     /// hand the policy object stored under `id` (a static policy or a link) back to `add`, after
@@ -460,10 +462,12 @@ fn run(case: &Case, obs: &mut Obs) -> Option<Violation> {
             }
             continue;
         }
-        let ok = if let PsOp::Merge { sub, rename } = op {
-            // `other` is produced by its own short history
-            let mut other = PolicySet::new();
-            let mut om = PModel::new();
+        let ok = if let PsOp::Merge { sub, rename, from_clone } = op {
+            // `other` is produced by its own short history (possibly starting from a clone of the set)
+            let (mut other, mut om) = if *from_clone { (ps.clone(), m.clone()) } else { (PolicySet::new(), PModel::new()) };
+            if *from_clone {
+                cx.obs.count("reach.merge_with_edited_clone");
+            }
             for (k, sop) in sub.iter().enumerate() {
                 if let Err(v) = apply(&mut cx, &mut other, &mut om, sop, step * 100 + k, false) {
                     return Some(v);
@@ -664,8 +668,36 @@ fn gen_ops(rng: &mut Rng, n: usize, allow_merge: bool, idpool: usize) -> Vec<PsO
             }
             6 => {
                 let k = rng.range(1, 6);
-                let sub = gen_ops(rng, k, false, idpool);
-                ops.push(PsOp::Merge { sub, rename: rng.pct(60) });
+                let from_clone = rng.pct(30);
+                // an edited clone: unlink / relink / remove what the set itself holds
+                let sub = if from_clone {
+                    let mut sub = vec![];
+                    for _ in 0..rng.range(1, 4) {
+                        let e = |rng: &mut Rng| Some(rng.below(8) as u8);
+                        match rng.below(6) {
+                            0 | 1 if !links.is_empty() => {
+                                // bind an existing link id again, to the same or another template, with other values
+                                let l = *rng.pick(&links);
+                                sub.push(PsOp::Unlink { id: l });
+                                if !templates.is_empty() {
+                                    let (tid, (sp, sr)) = *rng.pick(&templates);
+                                    sub.push(PsOp::Link { tid, id: l, p: if sp { e(rng) } else { None }, r: if sr { e(rng) } else { None } });
+                                }
+                            }
+                            2 if !statics.is_empty() => {
+                                let st = *rng.pick(&statics);
+                                sub.push(PsOp::RemoveStatic { id: st });
+                                sub.push(PsOp::Add { id: st, pol: gen_pol(rng, false) });
+                            }
+                            3 if !statics.is_empty() => sub.push(PsOp::RemoveStatic { id: *rng.pick(&statics) }),
+                            _ => sub.extend(gen_ops(rng, 1, false, idpool)),
+                        }
+                    }
+                    sub
+                } else {
+                    gen_ops(rng, k, false, idpool)
+                };
+                ops.push(PsOp::Merge { sub, rename: rng.pct(60), from_clone });
             }
             7 => ops.push(PsOp::RoundTrip { via: rng.below(2) as u8 }),
             9 => {
@@ -737,9 +769,12 @@ impl World for PolicySetWorld {
         for (i, op) in case.ops.iter().enumerate() {
             let mut variants = vec![];
             match op {
-                PsOp::Merge { sub, rename } => {
+                PsOp::Merge { sub, rename, from_clone } => {
                     for s in list_shrinks(sub) {
-                        variants.push(PsOp::Merge { sub: s, rename: *rename });
+                        variants.push(PsOp::Merge { sub: s, rename: *rename, from_clone: *from_clone });
+                    }
+                    if *from_clone {
+                        variants.push(PsOp::Merge { sub: sub.clone(), rename: *rename, from_clone: false });
                     }
                 }
                 PsOp::Add { id, pol } | PsOp::AddTemplate { id, pol } => {
@@ -795,7 +830,7 @@ impl World for PolicySetWorld {
         ]
     }
     fn reach_probes(&self) -> Vec<&'static str> {
-        vec!["reach.merge_two_or_more_renamed", "reach.merge_renamed_template_with_links", "reach.merge_conflict_rejected", "reach.merge_role_swap", "reach.remove_template_with_live_links", "reach.link_wrong_slots", "reach.link_to_static_id", "reach.link_to_link_id", "reach.link_to_nothing", "reach.add_link_object_without_its_template", "reach.add_renamed_policy", "reach.add_renamed_template"]
+        vec!["reach.merge_two_or_more_renamed", "reach.merge_renamed_template_with_links", "reach.merge_conflict_rejected", "reach.merge_role_swap", "reach.remove_template_with_live_links", "reach.link_wrong_slots", "reach.link_to_static_id", "reach.link_to_link_id", "reach.link_to_nothing", "reach.add_link_object_without_its_template", "reach.add_renamed_policy", "reach.add_renamed_template", "reach.merge_with_edited_clone"]
     }
 }
 
